@@ -52,10 +52,16 @@ const seqAssumption = "the monitored task runner reproduces the contract of task
 func init() {
 	register(&Check{
 		ID: "C01", Level: "exploration",
-		Rule:        "sequential conformance histories (generated from the seed: 1-2 pipelines over all 84 admission classes, ≤34 operations: schedule / finish / fail / cancel (with slow-to-stop tasks) / delay expiry / unstartable jobs) executed against the real runner; after every operation the system is driven to logical quiescence and the executing set, every task interval and every reported job span are compared with the reference model; a situation is (admission class, #running, #waiting) resp. (#others executing at a job start, limit); distinct_nontrivial counts distinct situations in which the oracle was evaluated",
+		Rule:        "sequential conformance histories (generated from the seed: 1-2 pipelines over all 84 admission classes, ≤34 operations: schedule / finish / fail / cancel (with slow-to-stop tasks) / delay expiry / unstartable jobs) executed against the real runner; after every operation the system is driven to logical quiescence and the executing set, every task interval and every reported job span are compared with the reference model; plus concurrent stress histories (3 schedulers, 2 cancelers, 2 snapshot readers, optional random parking of scheduler loops) judged offline: every atomic snapshot has at most `concurrency` executing jobs, no job starts while `concurrency` others execute (reported spans and task-interval hulls), and the recorded API history is linearizable w.r.t. the sequential admission model (porcupine); a situation is (admission class, #running, #waiting) resp. (#others executing at a job start, limit) resp. overlapping operation pairs; distinct_nontrivial counts distinct situations in which the oracle was evaluated",
 		Assumptions: []string{seqAssumption},
-		Cases:       func(t string) int { return tierN(t, 1600, 40000) },
-		RunCase:     func(c *CaseCtx) *CaseResult { return histCase(c, admissionOpts(c.Idx), 400) },
+		Cases: func(t string) int { return tierN(t, 1600, 40000) + tierN(t, 240, 6000) },
+		RunCase: func(c *CaseCtx) *CaseResult {
+			if c.Idx >= tierN(c.Tier, 1600, 40000) {
+				// schedules: concurrent clients; snapshot invariant, offline interval checker and linearizability
+				return linCase(c, "C01")
+			}
+			return histCase(c, admissionOpts(c.Idx), 400)
+		},
 		MinDistinct: 20,
 	})
 	register(&Check{
@@ -204,7 +210,7 @@ func init() {
 		ID: "C04", Level: "exploration",
 		Rule: "the instant is the quantifier: directed sweep = 8 cancel variants (loop parked at an iteration boundary through hook H1 with the cancel fully delivered before release / racing the release; task inside Run; racing the last task's exit; waiting behind a busy slot; waiting with pending delay; waiting with expired delay behind a busy slot; 3 concurrent duplicate cancels) x 9 graph shapes x every boundary 0..6 (number of tasks finished before), delivery observed through the runner's Cancel events; repeated with the REAL taskctl.TaskRunner and shell scripts (marker files prove which tasks executed); plus cancel-heavy conformance histories with slow-to-stop tasks. Oracles: canceled waiting job never runs a task; running job's runner is told to stop; no task begins after the stop was delivered; terminal report canceled, never plain success while tasks were left unrun or stopped; cancel result classes (second cancel = no-op, unknown id = not found, finished job unchanged). A situation is (variant, real?, #tasks, #done at the boundary, #running at park)",
 		Assumptions: []string{seqAssumption, "a cancel that loses the race against natural completion (every task ran to its end unstopped) may be reported as success: the oracle is silent there"},
-		Cases:       func(t string) int { return nDirected + tierN(t, 90, 1200) + tierN(t, 600, 20000) + tierN(t, 0, nDirected*19) },
+		Cases:       func(t string) int { return nDirected + tierN(t, 90, 1200) + tierN(t, 600, 20000) + len(drv.ProcShapes()) + tierN(t, 0, nDirected*19) },
 		RunCase: func(c *CaseCtx) *CaseResult {
 			nReal := tierN(c.Tier, 90, 1200)
 			nHist := tierN(c.Tier, 600, 20000)
@@ -227,8 +233,18 @@ func init() {
 				o.SlowStopProb = 0.4
 				o.Pipe.MaxTasks = 5
 				return histCase(c, o, 300)
+			case c.Idx < nDirected+nReal+nHist+len(drv.ProcShapes()):
+				// real process trees (incl. processes that ignore the interrupt and have to be killed): the verdict must be canceled
+				h = drv.RunProcCase(c.Seed, drv.ProcOpts{Shape: c.Idx - nDirected - nReal - nHist, CancelAt: 0, WorkDir: c.TmpDir})
+				for k := range h.Situations["C20"] {
+					if h.Situations["C04"] == nil {
+						h.Situations["C04"] = map[string]struct{}{}
+					}
+					h.Situations["C04"]["real tree "+k] = struct{}{}
+				}
+				h.Evaluations["C04"] += h.Evaluations["C20"]
 			default:
-				o, _ := cancelCaseParams((c.Idx - nDirected - nReal - nHist) % nDirected)
+				o, _ := cancelCaseParams((c.Idx - nDirected - nReal - nHist - len(drv.ProcShapes())) % nDirected)
 				o.TmpDir = c.TmpDir
 				h = drv.RunCancelCase(c.Seed, o)
 			}
